@@ -22,6 +22,17 @@
    rejected every non-CLIENT error of the RESP3 batch is ignored but a CLIENT error still fails with ErrNoCache;
    AuthCredentialsFn overrides the sentinel credentials; the sentinel connection inherits the tracking options.
 
+   Round 2 (strengthening): credentials are explicit <<user, password>> pairs; an option record carries BOTH the static
+   credentials (`cred`, `scred`) and the result class of AuthCredentialsFn (`dcred`: off / empty pair / password only /
+   user+password / user only; the provider answers per address, so the sentinel connection gets its own pair), the
+   server model checks every AUTH against the one pair the property allows (`WantPair`: the provider's result replaces
+   the static pair as a whole) and `AuthAsSupplied` states it.  An injected error reply now has a TEXT (`fault.txt`):
+   generic ERR, NOPERM, NOAUTH, LOADING, READONLY, WRONGPASS, "unknown command '<the command itself>'" and "unknown
+   command 'HELLO'" aimed at non-HELLO steps.  The client model knows two classes only - "unk" (the text names HELLO
+   as unknown) and "err" (anything else) - which IS the rule: whatever the text, a failing checked step fails the
+   connection.  Known oddity kept as it is (`OddHelloText`): the code matches the "unknown command HELLO" text at every
+   step, not only at the HELLO step; with StrictHelloStep = TRUE the invariants stop excusing it (the two MC_setup_known_hellotext configs).
+
    TLC enumerates the cases (option records within MaxDev single-field changes of four base records plus NRandom random ones),
    checks the invariants on every intermediate state and, with Emit, prints one CASE record per finished behaviour:
    inputs + the per-connection command log, session state and outcome the specification predicts.  The driver
@@ -32,7 +43,11 @@ CONSTANTS MaxDev, NRandom, FaultKinds, Topos, SrvKinds, Emit,
           BugDropSelectR2,        \* SELECT missing in the RESP2 list
           BugAuthLate,            \* RESP2 list sends AUTH after the other setup commands
           BugTolerateNoEvict,     \* a CLIENT NO-EVICT error is skipped like a READONLY error
-          BugFallbackAnyHelloErr  \* any error reply to HELLO 3 switches to RESP2
+          BugFallbackAnyHelloErr, \* any error reply to HELLO 3 switches to RESP2
+          ErrTexts,               \* "one": generic text only | "rotate": one text per (step, record), all texts for base records
+          StrictHelloStep,        \* TRUE: the invariants do not excuse the "unknown command HELLO" text at other steps
+          BugMixCreds,            \* AuthCredentialsFn overrides the static user / password field by field, only when non-empty
+          BugNopermFallback       \* a NOPERM reply is taken for a rejected HELLO at whatever step it arrives
 
 VARIABLES cs,      \* the case: [o, srv, ucmd]
           fault,   \* the one fault of the case, chosen when the step it hits is reached (NoFault = none so far)
@@ -53,22 +68,23 @@ VARIABLES cs,      \* the case: [o, srv, ucmd]
 vars == <<cs, fault, slot, pc, log, sess, batch, reps, i, r2, info, out, hrej, bad, hit, served, result>>
 
 Slots == {"S1", "M1", "M2"}
-NoFault == [slot |-> "", step |-> -1, kind |-> "none"]
+NoFault == [slot |-> "", step |-> -1, kind |-> "none", txt |-> ""]
 
 \* ------------------------------------------------------------------------------------------------ options
-Base1 == [cred |-> "none", dyn |-> FALSE, name |-> "", db |-> 0, cache |-> "default", ro |-> FALSE,
+Base1 == [cred |-> "none", dcred |-> "off", name |-> "", db |-> 0, cache |-> "default", ro |-> FALSE,
           notouch |-> FALSE, noevict |-> FALSE, setinfo |-> "nil", r2 |-> FALSE, az |-> "off", topo |-> "single",
           scred |-> "none", sname |-> ""]
 Base2 == [Base1 EXCEPT !.cache = "off"]
 \* two "rich" records so that single deviations also probe the interplay of many settings
 Base3 == [Base1 EXCEPT !.topo = "sentinel", !.cred = "pass", !.db = 3, !.name = "cn", !.scred = "spass", !.sname = "sn",
                        !.cache = "off"]
-Base4 == [Base1 EXCEPT !.topo = "redirect", !.cred = "userpass", !.dyn = TRUE, !.db = 3, !.name = "cn", !.cache = "off",
+\* (static user+password AND a provider that supplies a password only: the two must not be mixed)
+Base4 == [Base1 EXCEPT !.topo = "redirect", !.cred = "userpass", !.dcred = "pass", !.db = 3, !.name = "cn", !.cache = "off",
                        !.ro = TRUE, !.notouch = TRUE, !.noevict = TRUE, !.setinfo = "two", !.az = "info"]
 Bases == {b \in {Base1, Base2, Base3, Base4} : b.topo \in Topos}
 Fields == DOMAIN Base1
 
-DomF == [cred |-> {"none", "pass", "userpass"}, dyn |-> BOOLEAN, name |-> {"", "cn"}, db |-> {0, 3},
+DomF == [cred |-> {"none", "pass", "userpass", "useronly"}, dcred |-> {"off", "empty", "pass", "userpass", "useronly"}, name |-> {"", "cn"}, db |-> {0, 3},
          cache |-> {"default", "custom", "bcast", "off"}, ro |-> BOOLEAN, notouch |-> BOOLEAN, noevict |-> BOOLEAN,
          setinfo |-> {"nil", "two", "other"}, r2 |-> BOOLEAN, az |-> {"off", "enable", "info"}, topo |-> Topos,
          scred |-> {"none", "spass"}, sname |-> {"", "sn"}]
@@ -89,21 +105,33 @@ Repair(o) == LET o1 == IF o.topo \in {"redirect", "cluster"} THEN o ELSE [o EXCE
 Rand == {Repair([f \in Fields |-> RandomElement(DomF[f])]) : n \in 1..NRandom}
 Opts == {o \in VaryN(Bases, MaxDev) \cup Rand : ValidOpt(o)}
 
-User(c) == IF c = "userpass" THEN "u1" ELSE ""
-Pass(c) == CASE c = "none" -> "" [] c = "spass" -> "spw" [] OTHER -> "pw"
-
-Kind(s, o) == IF s = "S1" THEN "sentinel" ELSE "main"
+\* credentials are <<user, password>> pairs
+P(u, p) == [u |-> u, p |-> p]
+NoCred == P("", "")
+StaticPair(c) == CASE c = "pass" -> P("", "pw") [] c = "userpass" -> P("u1", "pw") [] c = "useronly" -> P("u1", "")
+                   [] c = "spass" -> P("", "spw") [] OTHER -> NoCred
+\* what AuthCredentialsFn returns for the address of connection s (the sentinel address has its own credentials)
+DynPair(d, s) == LET x == IF s = "S1" THEN "s" ELSE ""
+                 IN CASE d = "pass" -> P("", "tok" \o x) [] d = "userpass" -> P("u2" \o x, "tok2" \o x)
+                      [] d = "useronly" -> P("u2" \o x, "") [] OTHER -> NoCred
 \* sentinel.go newSentinelOpt: sentinel credentials / name, db 0; everything else (tracking!) is inherited
 ConnOpt(o, s) == IF s = "S1" THEN [o EXCEPT !.cred = o.scred, !.name = o.sname, !.db = 0] ELSE o
-\* AuthCredentialsFn wins over the static credentials of whatever option copy is used
-EffCred(o, s) == IF o.dyn THEN o.cred ELSE ConnOpt(o, s).cred
+\* C47 "the configured or dynamically supplied credentials": the provider's result replaces the static pair of
+\* whatever option copy is used AS A WHOLE, empty fields included (this is also what the server is configured to accept)
+WantPair(o, s) == IF o.dcred # "off" THEN DynPair(o.dcred, s) ELSE StaticPair(ConnOpt(o, s).cred)
+\* what the client sends
+EffCred(o, s) == IF BugMixCreds /\ o.dcred # "off"
+                 THEN LET st == StaticPair(ConnOpt(o, s).cred)
+                          d == DynPair(o.dcred, s)
+                      IN P(IF d.u # "" THEN d.u ELSE st.u, IF d.p # "" THEN d.p ELSE st.p)
+                 ELSE WantPair(o, s)
 
 \* ------------------------------------------------------------------------------------------------ command lists
 Opt1(b, c) == IF b THEN <<c>> ELSE <<>>
-AuthArgs(c) == IF Pass(c) # "" /\ User(c) = "" THEN <<"AUTH", "default", Pass(c)>>
-               ELSE IF User(c) # "" THEN <<"AUTH", User(c), Pass(c)>> ELSE <<>>
-Auth2(c) == IF Pass(c) # "" /\ User(c) = "" THEN << <<"AUTH", Pass(c)>> >>
-            ELSE IF User(c) # "" THEN << <<"AUTH", User(c), Pass(c)>> >> ELSE <<>>
+AuthArgs(c) == IF c.p # "" /\ c.u = "" THEN <<"AUTH", "default", c.p>>
+               ELSE IF c.u # "" THEN <<"AUTH", c.u, c.p>> ELSE <<>>
+Auth2(c) == IF c.p # "" /\ c.u = "" THEN << <<"AUTH", c.p>> >>
+            ELSE IF c.u # "" THEN << <<"AUTH", c.u, c.p>> >> ELSE <<>>
 TrackCmd(o) == CASE o.cache = "custom" -> <<"CLIENT", "TRACKING", "ON", "OPTIN", "NOLOOP">>
                  [] o.cache = "bcast" -> <<"CLIENT", "TRACKING", "ON", "BCAST", "PREFIX", "p:">>
                  [] OTHER -> <<"CLIENT", "TRACKING", "ON", "OPTIN">>
@@ -139,23 +167,35 @@ HelloIndex2(c) == IF BugAuthLate THEN 1 ELSE Len(Auth2(c)) + 1
 \* ------------------------------------------------------------------------------------------------ server model
 NewSess == [authed |-> FALSE, user |-> "", proto |-> 2, name |-> "", db |-> 0, track |-> "off", ro |-> FALSE,
             notouch |-> FALSE, noevict |-> FALSE, capa |-> FALSE, lib |-> "", ver |-> ""]
-FreshSess(areq) == [NewSess EXCEPT !.authed = (areq = "none"), !.user = "default"]
+FreshSess(need) == [NewSess EXCEPT !.authed = (need = NoCred), !.user = "default"]
+\* the user table of the server is made from the pair it has to accept: no users at all for the empty pair, the
+\* default user's password for a password-only pair, otherwise an ACL user (empty password = nopass) next to a
+\* default user with an unrelated password
+AuthOK(u, p, need) ==
+  IF need = NoCred THEN u = "default"
+  ELSE \/ u = "default" /\ p = (IF need.u = "" THEN need.p ELSE "dpw")
+       \/ need.u # "" /\ u = need.u /\ (need.p = "" \/ p = need.p)
 
 IndexOf(c, w) == IF \E k \in 1..Len(c) : c[k] = w THEN CHOOSE k \in 1..Len(c) : c[k] = w ELSE 0
 
 \* reply class and session effect of one command (fakeredis follows Redis: lookup, then NOAUTH, then the handler)
-Exec(c, s, srv) ==
+Exec(c, s, srv, need) ==
   IF c[1] = "HELLO" THEN
      IF srv = "nohello" THEN [rep |-> "unk", s |-> s]
      ELSE IF c[2] = "3" /\ srv = "proto2" THEN [rep |-> "err", s |-> s]
      ELSE LET a == IndexOf(c, "AUTH")
               n == IndexOf(c, "SETNAME")
               s1 == IF a > 0 THEN [s EXCEPT !.authed = TRUE, !.user = c[a + 1]] ELSE s
-          IN IF ~s1.authed THEN [rep |-> "err", s |-> s]
+          IN IF a > 0 /\ ~AuthOK(c[a + 1], c[a + 2], need) THEN [rep |-> "err", s |-> s]      \* WRONGPASS
+             ELSE IF ~s1.authed THEN [rep |-> "err", s |-> s]
              ELSE [rep |-> IF c[2] = "3" THEN "map3" ELSE "map2",
                    s |-> [s1 EXCEPT !.proto = IF c[2] = "3" THEN 3 ELSE 2,
                                     !.name = IF n > 0 THEN c[n + 1] ELSE s1.name]]
-  ELSE IF c[1] = "AUTH" THEN [rep |-> "ok", s |-> [s EXCEPT !.authed = TRUE, !.user = IF Len(c) = 3 THEN c[2] ELSE "default"]]
+  ELSE IF c[1] = "AUTH" THEN
+     \* AUTH <password> without any password configured is an error; a wrong pair is WRONGPASS
+     IF (Len(c) = 2 /\ (need = NoCred \/ ~AuthOK("default", c[2], need))) \/ (Len(c) = 3 /\ ~AuthOK(c[2], c[3], need))
+     THEN [rep |-> "err", s |-> s]
+     ELSE [rep |-> "ok", s |-> [s EXCEPT !.authed = TRUE, !.user = IF Len(c) = 3 THEN c[2] ELSE "default"]]
   ELSE IF ~s.authed THEN [rep |-> "err", s |-> s]
   ELSE IF c[1] = "SELECT" THEN [rep |-> "ok", s |-> [s EXCEPT !.db = 3]]
   ELSE IF c[1] = "READONLY" THEN [rep |-> "ok", s |-> [s EXCEPT !.ro = TRUE]]
@@ -174,15 +214,19 @@ Exec(c, s, srv) ==
 
 \* the server works through a pipelined batch; f = the fault aimed at this connection (or NoFault); base = number of
 \* commands the connection has received before
-RECURSIVE Run(_, _, _, _, _, _)
-Run(b, k, s, base, f, srv) ==
+\* the class of an injected error reply as the client sees it: "unk" = the text says that HELLO is an unknown command
+\* (whatever command it answers), "err" = every other text
+ErrClass(txt, c) == IF txt = "unkhello" \/ (txt = "unkself" /\ c[1] = "HELLO") \/ (BugNopermFallback /\ txt = "noperm")
+                    THEN "unk" ELSE "err"
+RECURSIVE Run(_, _, _, _, _, _, _)
+Run(b, k, s, base, f, srv, need) ==
   IF k > Len(b) THEN [reps |-> <<>>, s |-> s, n |-> 0, cut |-> FALSE, hit |-> FALSE]
   ELSE LET h == f.kind \in {"err", "cut", "proto2map"} /\ f.step = base + k - 1
        IN IF h /\ f.kind = "cut" THEN [reps |-> <<>>, s |-> s, n |-> 1, cut |-> TRUE, hit |-> TRUE]
-          ELSE LET r == IF h /\ f.kind = "err" THEN [rep |-> "err", s |-> s]
+          ELSE LET r == IF h /\ f.kind = "err" THEN [rep |-> ErrClass(f.txt, b[k]), s |-> s]
                         ELSE IF h THEN [rep |-> "map2", s |-> s]
-                        ELSE Exec(b[k], s, srv)
-                   t == Run(b, k + 1, r.s, base, f, srv)
+                        ELSE Exec(b[k], s, srv, need)
+                   t == Run(b, k + 1, r.s, base, f, srv, need)
                IN [reps |-> <<r.rep>> \o t.reps, s |-> t.s, n |-> 1 + t.n, cut |-> t.cut, hit |-> h \/ t.hit]
 
 IsErr(r) == r \in {"err", "unk", "cut"}
@@ -199,12 +243,40 @@ Cases == UNION {[o : {o}, srv : SrvKinds, ucmd : UCmds(o)] : o \in Opts}
 \* faults are aimed at the first connections only together with the plain GET (the command is never issued when they
 \* fail), at the extra connection with the commands that need one
 FaultAllowedHere == fault = NoFault /\ (slot \in {"S1", "M1"} => cs.ucmd = "get")
+\* texts of class "err" (whatever the text, the client must treat the reply as a plain failure of that step):
+\*   err      ERR injected failure                       noperm    NOPERM ... has no permissions to run the '<cmd>' command
+\*   noauth   NOAUTH Authentication required.            loading   LOADING Redis is loading the dataset in memory
+\*   unkself  ERR unknown command '<CMD>', ...  (class "unk" when <CMD> is HELLO: a one-time rejection of HELLO)
+\*   readonly READONLY You can't write against ...       wrongpass WRONGPASS invalid username-password pair ...
+\* and "unkhello" (ERR unknown command 'HELLO', ...) aimed at steps that are not HELLO
+TextSeq == <<"err", "noperm", "noauth", "loading", "unkself", "readonly", "wrongpass", "unkhello">>
+Ord(S, v) == CHOOSE k \in 1..Len(S) : S[k] = v
+Salt == (IF O.db = 3 THEN 1 ELSE 0) + Len(O.name) + (IF O.notouch THEN 3 ELSE 0) + (IF O.noevict THEN 5 ELSE 0)
+        + (IF O.ro THEN 2 ELSE 0) + Ord(<<"default", "custom", "bcast", "off">>, O.cache)
+        + Ord(<<"nil", "two", "other">>, O.setinfo) + 3 * Ord(<<"off", "enable", "info">>, O.az) + (IF O.r2 THEN 4 ELSE 0)
+        + Ord(<<"none", "pass", "userpass", "useronly">>, O.cred) + 2 * Ord(<<"off", "empty", "pass", "userpass", "useronly">>, O.dcred)
+        + Len(O.sname) + Ord(<<"v7", "nohello", "proto2">>, cs.srv) + Ord(<<"get", "blpop", "stream", "subscribe">>, cs.ucmd)
+\* (a LOADING reply makes the cluster client refresh its topology in the background: extra traffic that is not setup;
+\*  at a HELLO step "unknown command HELLO" is simply unkself; the HELLO text is not aimed at AUTH: the code would skip
+\*  the step like any other and what an unauthenticated session answers afterwards is the server's business)
+FixTxt(t, c) == IF t = "loading" /\ O.topo = "cluster" THEN "err"
+                ELSE IF t = "unkhello" /\ c[1] \in {"HELLO", "AUTH"} THEN "unkself" ELSE t
+\* "rotate": the records of Bases get every text at every step of their first connections, every other (record, step)
+\* gets one text, rotating with the step and the record so that every (command, text) pair occurs many times
+TextsAt(b, k) ==
+  LET n == Len(log[slot]) + k
+      c == b[k]
+      want == IF ErrTexts = "one" THEN {"err"} \cup (IF c[1] \notin {"HELLO", "AUTH"} THEN {"unkhello"} ELSE {})
+              ELSE IF O \in Bases /\ slot # "M2" THEN {FixTxt(TextSeq[j], c) : j \in 1..Len(TextSeq)}
+              ELSE {FixTxt(TextSeq[((n + Salt) % Len(TextSeq)) + 1], c)}
+  IN {t \in want : IF t = "unkhello" THEN "unkhello" \in FaultKinds ELSE "err" \in FaultKinds}
 BatchFaults(b) ==
   {NoFault} \cup
   (IF ~FaultAllowedHere THEN {}
-   ELSE {[slot |-> slot, step |-> Len(log[slot]) + k - 1, kind |-> kd] : k \in 1..Len(b), kd \in FaultKinds \cap {"err", "cut"}}
+   ELSE {[slot |-> slot, step |-> Len(log[slot]) + k - 1, kind |-> "cut", txt |-> ""] : k \in (IF "cut" \in FaultKinds THEN 1..Len(b) ELSE {})}
+        \cup UNION {{[slot |-> slot, step |-> Len(log[slot]) + k - 1, kind |-> "err", txt |-> t] : t \in TextsAt(b, k)} : k \in 1..Len(b)}
         \cup (IF "proto2map" \in FaultKinds /\ b[1][1] = "HELLO" /\ b[1][2] = "3"
-              THEN {[slot |-> slot, step |-> Len(log[slot]), kind |-> "proto2map"]} ELSE {}))
+              THEN {[slot |-> slot, step |-> Len(log[slot]), kind |-> "proto2map", txt |-> ""]} ELSE {}))
 
 UserCmd(u) == CASE u = "get" -> <<"GET", "uk">> [] u = "blpop" -> <<"BLPOP", "ubl", "1">>
                 [] u = "stream" -> <<"GET", "usk">> [] OTHER -> <<"SUBSCRIBE", "uch">>
@@ -214,7 +286,7 @@ Init == /\ cs \in Cases /\ fault = NoFault
         /\ slot = (IF cs.o.topo = "sentinel" THEN "S1" ELSE "M1")
         /\ pc = "begin"
         /\ log = [s \in Slots |-> <<>>]
-        /\ sess = [s \in Slots |-> FreshSess(EffCred(cs.o, s))]
+        /\ sess = [s \in Slots |-> FreshSess(WantPair(cs.o, s))]
         /\ batch = <<>> /\ reps = <<>> /\ i = 0 /\ r2 = FALSE /\ info = 0
         /\ out = [s \in Slots |-> "none"]
         /\ hrej = {} /\ bad = [s \in Slots |-> {}] /\ hit = FALSE /\ served = "" /\ result = ""
@@ -224,13 +296,13 @@ Fail(kind) == /\ out' = [out EXCEPT ![slot] = kind] /\ pc' = "abort"
 Begin == /\ pc = "begin"
          /\ r2' = CO.r2 /\ info' = 0 /\ i' = 0 /\ batch' = <<>> /\ reps' = <<>>
          /\ \/ /\ pc' = (IF ~CO.r2 /\ ~R2ps THEN "send3" ELSE "post3") /\ UNCHANGED <<out, hit, fault>>
-            \/ /\ O.dyn /\ "authfn" \in FaultKinds /\ FaultAllowedHere   \* AuthCredentialsFn returns an error
-               /\ fault' = [slot |-> slot, step |-> 0, kind |-> "authfn"] /\ hit' = TRUE /\ Fail("fail")
+            \/ /\ O.dcred # "off" /\ "authfn" \in FaultKinds /\ FaultAllowedHere   \* AuthCredentialsFn returns an error
+               /\ fault' = [slot |-> slot, step |-> 0, kind |-> "authfn", txt |-> ""] /\ hit' = TRUE /\ Fail("fail")
          /\ UNCHANGED <<cs, slot, log, sess, hrej, bad, served, result>>
 
 SendBatch(b, next) ==
   \E f \in BatchFaults(b) :
-    LET t == Run(b, 1, sess[slot], Len(log[slot]), f, cs.srv)
+    LET t == Run(b, 1, sess[slot], Len(log[slot]), f, cs.srv, WantPair(O, slot))
     IN /\ batch' = b
        /\ fault' = (IF f = NoFault THEN fault ELSE f)
        /\ log' = [log EXCEPT ![slot] = @ \o SubSeq(b, 1, t.n)]
@@ -320,9 +392,9 @@ TypeOK == /\ pc \in {"begin", "send3", "chk3", "post3", "send2", "chk2", "abort"
 \* what the options ask of a session (READONLY and the library info are best effort)
 Configured(s) ==
   LET o == ConnOpt(O, s)
-      c == EffCred(O, s)
+      c == WantPair(O, s)
       x == sess[s]
-  IN /\ x.authed /\ (c # "none" => x.user = (IF User(c) = "" THEN "default" ELSE User(c)))
+  IN /\ x.authed /\ (c # NoCred => x.user = (IF c.u = "" THEN "default" ELSE c.u))
      /\ x.name = o.name /\ x.db = o.db
      /\ x.proto = (IF out[s] = "ok3" THEN 3 ELSE 2)
      /\ (o.cache # "off" => /\ out[s] = "ok3"
@@ -335,20 +407,36 @@ ClientTraffic(c) == IsUser(c) \/ c \in {<<"CLUSTER", "SLOTS">>, <<"ROLE">>}
 
 \* C47: nothing but setup traffic reaches a connection before its setup has completed with every configured
 \* setting in force; in particular nothing is ever served on a connection whose setup failed
+\* Known oddity of the code, kept: noHello is matched against the text of the error reply of EVERY step of both lists,
+\* so a server that answers e.g. SELECT with "unknown command 'HELLO'" makes the RESP3 loop fall back and the RESP2 loop
+\* skip the step.  No Redis does that (the text names the command it rejects); the invariants excuse exactly this
+\* fault unless StrictHelloStep (the MC_setup_known_hellotext configs show what breaks without the excuse).
+OddHelloText(s) == ~StrictHelloStep /\ hit /\ fault.slot = s /\ fault.kind = "err" /\ fault.txt = "unkhello"
+
 NoUserCommandBeforeSetup ==
-  \A s \in Slots : (\E k \in 1..Len(log[s]) : ClientTraffic(log[s][k])) => Usable(s) /\ Configured(s)
-ServedOnlyWhenConfigured == served # "" => Usable(served) /\ Configured(served)
+  \A s \in Slots : (\E k \in 1..Len(log[s]) : ClientTraffic(log[s][k])) => Usable(s) /\ (Configured(s) \/ OddHelloText(s))
+ServedOnlyWhenConfigured == served # "" => Usable(served) /\ (Configured(served) \/ OddHelloText(served))
+
+\* C47 "authenticates with the configured or dynamically supplied credentials": every credential that reaches a
+\* server is exactly the pair the options designate for that connection - never a mix of the two sources
+AuthAsSupplied ==
+  \A s \in Slots : \A k \in 1..Len(log[s]) :
+     LET c == log[s][k]
+         a == IndexOf(c, "AUTH")
+     IN /\ (c[1] = "AUTH" => <<c>> = Auth2(WantPair(O, s)))
+        /\ (c[1] = "HELLO" /\ a > 0 => SubSeq(c, a, a + 2) = AuthArgs(WantPair(O, s)))
+        /\ (c[1] = "HELLO" /\ c[2] = "3" /\ a = 0 => AuthArgs(WantPair(O, s)) = <<>>)
 
 \* C47: RESP2 is used only if asked for, if HELLO 3 was rejected as an unknown command, or if the server's HELLO
 \* reply announced a protocol below 3 (and the RESP2 Pub/Sub side connection of a RESP2 client)
 FallbackOnlyOnHelloRejected ==
   \A s \in Slots : out[s] = "ok2" =>
-      \/ ConnOpt(O, s).r2 \/ s \in hrej \/ (fault.kind = "proto2map" /\ fault.slot = s /\ hit)
+      \/ ConnOpt(O, s).r2 \/ s \in hrej \/ (fault.kind = "proto2map" /\ fault.slot = s /\ hit) \/ OddHelloText(s)
       \/ (s = "M2" /\ cs.ucmd = "subscribe" /\ out["M1"] = "ok2")
 NoFallbackWithCache == \A s \in Slots : out[s] = "ok2" => ConnOpt(O, s).cache = "off"
 
 \* credentials go first in the RESP2 list (HELLO 2 would be refused with NOAUTH otherwise)
-AuthLeadsResp2 == (pc = "chk2" /\ Cred # "none") => batch[1][1] = "AUTH"
+AuthLeadsResp2 == (pc = "chk2" /\ Cred # NoCred) => batch[1][1] = "AUTH"
 
 \* C47: an error at a checked step of the list that is finally in force fails the connection
 ToleratedStep(c, ph) == c[1] = "READONLY" \/ (Len(c) > 1 /\ c[2] = "SETINFO")
@@ -358,7 +446,8 @@ FailedStepFailsConnection ==
          o == ConnOpt(O, s)
          l == IF ph = 3 THEN Init3(o, EffCred(O, s)) ELSE Init2(o, EffCred(O, s))
      IN \A e \in bad[s] : e[1] = ph => \/ ToleratedStep(l[e[2]], ph)
-                                       \/ (ph = 2 /\ l[e[2]][1] = "HELLO" /\ cs.srv = "nohello")
+                                       \/ (ph = 2 /\ l[e[2]][1] = "HELLO" /\ e[3] = "unk")
+                                       \/ OddHelloText(s)
 \* ... and tolerated errors alone never do: a failed connection saw a real failure
 ToleratedOnly ==
   \A s \in Slots : out[s] = "fail" =>
@@ -374,11 +463,12 @@ CleanRunSucceeds == (pc = "done" /\ fault = NoFault /\ cs.srv = "v7" /\ (~O.r2 \
 \* a fault-free run against a server without HELLO works exactly when caching is disabled (and no CLIENT command is
 \* refused for lack of authentication in the RESP3 batch)
 OldServerWorksWithoutCache ==
-  (pc = "done" /\ fault = NoFault /\ cs.srv = "nohello" /\ O.cache = "off" /\ O.cred = "none" /\ O.scred = "none")
+  (pc = "done" /\ fault = NoFault /\ cs.srv = "nohello" /\ O.cache = "off" /\ O.cred = "none" /\ O.scred = "none"
+     /\ O.dcred \in {"off", "empty"})
      => result = "ok"
 
 \* ------------------------------------------------------------------------------------------------ case output
-SlotRec(s) == [log |-> log[s], out |-> out[s], sess |-> sess[s], cred |-> EffCred(O, s)]
+SlotRec(s) == [log |-> log[s], out |-> out[s], sess |-> sess[s], need |-> WantPair(O, s)]
 CaseRec == [o |-> O, srv |-> cs.srv, fault |-> fault, ucmd |-> cs.ucmd, result |-> result, served |-> served,
             S1 |-> SlotRec("S1"), M1 |-> SlotRec("M1"), M2 |-> SlotRec("M2")]
 EmitCase == (Emit /\ pc = "done") => PrintT(<<"CASE", ToJson(CaseRec)>>)
